@@ -95,6 +95,14 @@ func TestC08_RealPowEngines(t *testing.T) {
 				{"donor.merkle-root(coinbase)", func(s *donorSpec) { s.extraNonce2++ }},
 			}
 			picks := rapid.SliceOfNDistinct(rapid.IntRange(0, len(all)-1), 3, 3, rapid.ID[int]).Draw(t, "donorMutations")
+			// every case also changes the nonce on the engine that has just verified the sealed header
+			// (warm result cache): one bit of the high word, one bit of the low word, both words
+			hi, lo := uint(rapid.IntRange(32, 63).Draw(t, "nonceHighBit")), uint(rapid.IntRange(0, 31).Draw(t, "nonceLowBit"))
+			all = append(all,
+				dm{"donor.nonce64.high-word", func(s *donorSpec) { s.nonce ^= 1 << hi }},
+				dm{"donor.nonce64.low-word", func(s *donorSpec) { s.nonce ^= 1 << lo }},
+				dm{"donor.nonce64.both-words", func(s *donorSpec) { s.nonce ^= 1<<hi | 1<<lo }})
+			picks = append(picks, len(all)-3, len(all)-2, len(all)-1)
 			for _, i := range picks {
 				s2 := spec.clone()
 				all[i].f(&s2)
